@@ -48,3 +48,18 @@ func specSatisfiable(r storage.ByteRange, size int64) bool {
 func specSameSlice(out storage.ByteRange, in storage.ByteRange, size int64) bool {
 	return specLo(out, size) == specLo(in, size) && specHi(out, size) == specHi(in, size)
 }
+
+// specWellFormedRange: the shape of a syntactically valid byte-range-spec after parsing (RFC 7233 §2.1):
+// a suffix length is not negative, a first-byte-pos is not negative and does not exceed the last-byte-pos
+// (End is the exclusive end, so End > Start).
+func specWellFormedRange(r storage.ByteRange) bool {
+	if r.Start == nil {
+		return r.End == nil || *r.End >= 0
+	}
+	return *r.Start >= 0 && (r.End == nil || *r.End > *r.Start)
+}
+
+// specNonEmptyWithin: an absolute range [Start, End) that selects at least one byte of an object of the given size.
+func specNonEmptyWithin(r storage.ByteRange, size int64) bool {
+	return r.Start != nil && r.End != nil && 0 <= *r.Start && *r.Start < *r.End && *r.End <= size
+}
